@@ -382,7 +382,7 @@ def tag_count_order(w, fn):
     counts = []
     for bb, t in cfgmod.calls(b):
         c = cfgmod.callee(t) or ""
-        if c.endswith("Iterator>::fold") or c.endswith("Iterator>::max") or c.endswith("Iterator>::max_by_key"):
+        if "Iterator" in c and c.rsplit("::", 1)[-1] in ("fold", "max", "max_by_key", "reduce"):
             a = t["args"][0]
             p = a.get("move") or a.get("copy")
             if p and coll in C.backward_locals(b, p["local"]):
@@ -395,6 +395,30 @@ def tag_count_order(w, fn):
                 if s["k"] == "assign" and s["rv"]["k"] in ("ref", "rawptr") and s["rv"].get("mut") and s["rv"]["place"]["local"] == coll:
                     late.append((cb, bb))
     return coll, counts, late
+
+
+def tag_padding_amounts(w, fn):
+    """subtractions `slot count - len(tag list of one character)` of a parser: the number of absent tags appended after a
+    character's own tags.  Returns [(bb, uses count?, uses a Vec::len?)] for every Sub whose result is used."""
+    b = C.body(w, fn)
+    coll, counts, _ = tag_count_order(w, fn)
+    if coll is None or not counts:
+        return []
+    count_dests = {b.blocks[bb]["term"]["dest"]["local"] for bb in counts}
+    out = []
+    for i, blk in enumerate(b.blocks):
+        if blk["cleanup"]:
+            continue
+        for s in blk["stmts"]:
+            if s["k"] == "assign" and s["rv"]["k"] == "bin" and s["rv"]["op"] in ("Sub", "SubWithOverflow", "SubUnchecked"):
+                pa = s["rv"]["a"].get("copy") or s["rv"]["a"].get("move")
+                pb = s["rv"]["b"].get("copy") or s["rv"]["b"].get("move")
+                if not pa or not pb:
+                    continue
+                la = C.backward_locals(b, pa["local"])
+                cb, _, _ = C.backward_slice(b, pb["local"])
+                out.append((i, bool(count_dests & la), any(c.endswith("Vec::len") for c in cb)))
+    return out
 
 
 TEXT_SCAN_OK = ("str::is_empty", "str::len", "str::chars", "str::char_indices")
